@@ -144,8 +144,11 @@ Qed.
 Lemma e78_out_of_range : no_integer_in_range (mkEtc EUInt 256 (bs "256")) (bs "1e78").
 Proof.
   split; [vm_compute; discriminate|]. intros z Hz.
-  assert (Ez : z = (10 ^ 78)%Z) by (vm_compute in Hz; exact Hz).
-  subst z. vm_compute. reflexivity.
+  assert (D : text_denotes (bs "1e78") (10 ^ 78)) by (vm_compute; reflexivity).
+  assert (M : exponent_moderate (bs "1e78")) by (vm_compute; split; [reflexivity|discriminate]).
+  pose proof (BigIntegerFromString_complete (fun _ => None) _ _ Hz M) as E1.
+  pose proof (BigIntegerFromString_complete (fun _ => None) _ _ D M) as E2.
+  rewrite E1 in E2. injection E2 as ->. vm_compute. reflexivity.
 Qed.
 
 Lemma chainId_reached t :
@@ -156,12 +159,142 @@ Proof.
   - apply rc_here.
 Qed.
 
-Theorem mail_inexact_rejected H big_other :
-  (exists e, EncodeTypedDataV4 H big_other (Some (mail_td_with (GNumber (bs "1.5")))) = Err e) /  (exists e, EncodeTypedDataV4 H big_other (Some (mail_td_with (GNumber (bs "1e78")))) = Err e).
+Theorem mail_inexact_rejected (H : bytes -> bytes) (big_other : bytes -> option Z) :
+  (exists e, EncodeTypedDataV4 H big_other (Some (mail_td_with (GNumber (bs "1.5")))) = Err e) /\
+  (exists e, EncodeTypedDataV4 H big_other (Some (mail_td_with (GNumber (bs "1e78")))) = Err e).
 Proof.
   split.
   - exact (rejects_inexact_from_json H big_other _ _ _ _ _ _ (chainId_reached _) (or_introl eq_refl)
              uint256_member (one_and_half_no_integer _)).
   - exact (rejects_inexact_from_json H big_other _ _ _ _ _ _ (chainId_reached _) (or_introl eq_refl)
              uint256_member e78_out_of_range).
+Qed.
+
+(* ---------- signing end to end: the toy group, key 5, constant nonce 3 ---------- *)
+Definition toyH (x : bytes) : bytes := firstn 32 (x ++ repeat x00 32).
+Lemma toyH_len x : length (toyH x) = 32%nat.
+Proof. unfold toyH. rewrite firstn_length, app_length, repeat_length. apply Nat.min_l. apply Nat.le_add_l. Qed.
+Definition toyNonce : Z -> bytes -> nat -> Z := fun _ _ _ => 3%Z.
+
+Theorem mail_signed_end_to_end :
+  laws Toy.ops /\
+  exists res sg,
+    SignTypedDataV4 keccak256 (fun _ => None) (key_signer Toy.ops toyNonce 1 5%Z) (Some mail_td) = Ok res /\
+    r_hash res = unhex "be609aee343fb3c4b28e1df9e632fca64fcfaede20f02e86244efddf30957bd2" /\
+    length (r_signatureRSV res) = 65%nat /\ (r_V res = 27 \/ r_V res = 28)%Z /\
+    Secp.Model.DecodeCompactRSV (r_signatureRSV res) = Ok sg /\
+    (2 * Secp.Model.sS sg <= n Toy.ops)%Z /\
+    Secp.Model.RecoverDirect Toy.ops toyH sg (r_hash res) 1 = Ok (Secp.Proofs.addr_of Toy.ops toyH (pub Toy.ops 5)).
+Proof.
+  split; [exact Toy.toy_laws|].
+  destruct mail_well_formed as [Hwf Hd].
+  assert (Hd5 : (1 <= 5 < n Toy.ops)%Z) by (split; [discriminate|reflexivity]).
+  assert (Hnf : nonce_found Toy.ops toyNonce 1 5 (digest keccak256 mail_doc)).
+  { exists 0%nat. split; [lia|]. rewrite mail_published_digest. vm_compute. discriminate. }
+  assert (Hno : Secp.Proofs.no_overflow Toy.ops toyNonce 5 (digest keccak256 mail_doc)).
+  { intros j. unfold toyNonce. vm_compute. reflexivity. }
+  destruct (sign_typed_data_end_to_end Toy.ops Toy.toy_laws eq_refl toyH toyH_len toyNonce 1 5%Z Hd5
+              keccak256 (fun _ => None) mail_td mail_doc
+              (represents_json_represents _ _ _ mail_represents_json) Hwf Hd Hnf Hno)
+    as (res & sg & Hs & Hh & _ & _ & _ & Hlen & HV & Hdec & _ & _ & _ & _ & _ & Hlow & _ & Hrec).
+  exists res, sg. rewrite mail_published_digest in Hh.
+  split; [exact Hs|]. split; [exact Hh|]. split; [exact Hlen|]. split; [exact HV|]. split; [exact Hdec|].
+  split; [exact Hlow|]. rewrite Hh, <- mail_published_digest. apply Hrec. split; discriminate.
+Qed.
+
+(* ---------- a document with an array of integers: 10^18 in four spellings, a bytes4, no domain ---------- *)
+Definition order_types : typeset :=
+  [ (bs "Order", Some [mem "maker" "address"; mem "amounts" "uint256[]"; mem "tag" "bytes4"]) ].
+Definition order_message (amounts : list gval) (tag : gval) : gmap :=
+  [ (bs "maker", GString (bs "0xCD2a3d9F938E13CD947Ec05AbC7FE734Df8DD826"));
+    (bs "amounts", GSlice amounts); (bs "tag", tag) ].
+Definition order_td_with (amounts : list gval) (tag : gval) : typed_data :=
+  mkTD (Some order_types) (bs "Order") None (Some (order_message amounts tag)).
+Definition order_amounts : list gval :=
+  [ GNumber (bs "1e18"); GString (bs "0xde0b6b3a7640000"); GNumber (bs "1000000000000000000.0"); GString (bs "+1E18") ].
+Definition order_td : typed_data := order_td_with order_amounts (GString (bs "0xdeadBEEF")).
+
+Definition order_sts : types :=
+  [ (bs "Order", [sm "maker" (Atomic AAddress); sm "amounts" (Arr (Atomic (AUint 256)) None); sm "tag" (Atomic (ABytesN 4))]);
+    (bs "EIP712Domain", []) ].
+Definition order_doc : doc :=
+  {| d_types := order_sts; d_primary := bs "Order"; d_domain := VStruct [];
+     d_message := VStruct [ VInt 0xCD2a3d9F938E13CD947Ec05AbC7FE734Df8DD826%Z;
+                            VArr [VInt (10 ^ 18); VInt (10 ^ 18); VInt (10 ^ 18); VInt (10 ^ 18)];
+                            VBytes (unhex "deadbeef") ] |}.
+
+Lemma rj_bytesN_intro sts k s b :
+  get_bytes (GString s) = Ok b -> repr_json sts (Atomic (ABytesN k)) (GString s) (VBytes b).
+Proof.
+  intros Hg. apply RJ_atomic. exists s, b. split; [reflexivity|]. split; [apply get_bytes_exact; exact Hg|reflexivity].
+Qed.
+
+Lemma order_represents_json : represents_json order_td order_doc.
+Proof.
+  split; [|split; [reflexivity|split; [|right]]].
+  - apply parse_types_repr; [vm_compute; reflexivity|].
+    apply wf_types_b_ok. vm_compute. reflexivity.
+  - eapply RJ_struct; [vm_compute; reflexivity|]. apply RJM_nil.
+  - eapply RJ_struct; [vm_compute; reflexivity|].
+    apply RJM_cons; [eapply rj_address_intro; vm_compute; reflexivity|].
+    apply RJM_cons.
+    { apply RJ_arr.
+      apply RJE_cons; [apply rj_uint_num_intro; [vm_compute; reflexivity|vm_compute; split; [reflexivity|discriminate]]|].
+      apply RJE_cons; [apply rj_uint_str_intro; [vm_compute; reflexivity|vm_compute; exact I]|].
+      apply RJE_cons; [apply rj_uint_num_intro; [vm_compute; reflexivity|vm_compute; split; [reflexivity|discriminate]]|].
+      apply RJE_cons; [apply rj_uint_str_intro; [vm_compute; reflexivity|vm_compute; split; [reflexivity|discriminate]]|].
+      apply RJE_nil. }
+    apply RJM_cons; [apply rj_bytesN_intro; vm_compute; reflexivity|]. apply RJM_nil.
+Qed.
+
+Theorem order_from_json :
+  represents_json order_td order_doc /\ wf_doc order_doc /\ types_dims_fit (d_types order_doc) /\
+  (forall H big_other, EncodeTypedDataV4 H big_other (Some order_td) = Ok (digest H order_doc)).
+Proof.
+  assert (Hwf : wf_doc order_doc) by (apply wf_doc_b_ok; vm_compute; reflexivity).
+  assert (Hd : types_dims_fit (d_types order_doc)) by (apply types_dims_fit_b_ok; vm_compute; reflexivity).
+  split; [exact order_represents_json|]. split; [exact Hwf|]. split; [exact Hd|].
+  intros H big_other. exact (digest_is_spec_from_json H big_other _ _ order_represents_json Hwf Hd).
+Qed.
+
+(* an element 1e-1 inside the array, or a tag that is not hex, makes the document an error *)
+Lemma order_uint256 :
+  integer_member_type (effective_types (Some order_types)) (bs "uint256") (mkEtc EUInt 256 (bs "256")).
+Proof. repeat split; vm_compute; reflexivity. Qed.
+
+Lemma order_bytes4 : hex_member_type (effective_types (Some order_types)) (bs "bytes4") (mkEtc EBytes 4 (bs "4")).
+Proof. split; [|split; [|split]]; try (vm_compute; reflexivity). right. reflexivity. Qed.
+
+Lemma tenth_no_integer tc : no_integer_in_range tc (bs "1e-1").
+Proof.
+  split; [vm_compute; discriminate|]. intros z Hz. exfalso. unfold text_denotes in Hz.
+  assert (E : classify (bs "1e-1") = CSci false (bs "1") [] true (bs "1")) by (vm_compute; reflexivity).
+  rewrite E in Hz. unfold sci_denotes in Hz. cbv zeta in Hz.
+  assert (Em : dec_value (bs "1" ++ []) = 1%Z) by (vm_compute; reflexivity).
+  assert (En : (signed true (dec_value (bs "1")) - Z.of_nat (length (@nil byte)) = -1)%Z) by (vm_compute; reflexivity).
+  rewrite Em, En in Hz. change (0 <=? -1)%Z with false in Hz. change (10 ^ (- -1))%Z with 10%Z in Hz.
+  unfold signed in Hz. lia.
+Qed.
+
+Theorem order_bad_rejected (H : bytes -> bytes) (big_other : bytes -> option Z) :
+  (exists e, EncodeTypedDataV4 H big_other
+               (Some (order_td_with [GNumber (bs "1e18"); GNumber (bs "1e-1")] (GString (bs "0xdeadBEEF")))) = Err e) /\
+  (exists e, EncodeTypedDataV4 H big_other (Some (order_td_with order_amounts (GString (bs "0xdeadbeeg")))) = Err e).
+Proof.
+  split.
+  - apply (rejects_inexact_from_json H big_other _ 2 (bs "uint256") (mkEtc EUInt 256 (bs "256")) (bs "1e-1") (GNumber (bs "1e-1")));
+      [|left; reflexivity|exact order_uint256|apply tenth_no_integer].
+    right. split; [vm_compute; reflexivity|].
+    eexists. exists (mkMember (bs "amounts") (bs "uint256[]")). split; [reflexivity|]. split; [vm_compute; auto|].
+    eapply (rc_elem _ 2 (bs "uint256[]") 6 (bs "uint256")); try (vm_compute; reflexivity).
+    + right. left. reflexivity.
+    + apply rc_here.
+  - apply (rejects_bad_hex_from_json H big_other _ 3 (bs "bytes4") (mkEtc EBytes 4 (bs "4")) (GString (bs "0xdeadbeeg")));
+      [|exact order_bytes4|].
+    + right. split; [vm_compute; reflexivity|].
+      eexists. exists (mkMember (bs "tag") (bs "bytes4")). split; [reflexivity|]. split; [vm_compute; auto|].
+      apply rc_here.
+    + intros s b Es Hd. injection Es as <-. apply get_bytes_exact in Hd.
+      assert (E : get_bytes (GString (bs "0xdeadbeeg")) = Err EBadHex) by (vm_compute; reflexivity).
+      rewrite E in Hd. discriminate.
 Qed.
